@@ -108,7 +108,8 @@ enum WOp {
     RowIdx { i: usize, x: usize },
     RowsMut,
     IterMut,
-    CopyFrom { sx: u32, sy: u32, dw: i32, dh: i32 },
+    /// `via_mut`: the source is handed over as a (strided) MutSlice2 of a copy of the source buffer instead of a Slice2
+    CopyFrom { sx: u32, sy: u32, dw: i32, dh: i32, via_mut: bool },
 }
 
 struct Ctx<'a> {
@@ -214,15 +215,15 @@ fn reads<D: Deref<Target = [i32]>>(v: &Inner<i32, D>, g: Geo, model: &[i32], cx:
 }
 
 /// Model effect of a write op on view geometry `g`. Returns (expected panic?, new model).
-/// `None` for expect-panic means "either outcome accepted" (zero-area carve-out).
+/// (Writes through empty views are no-ops, never panics: an earlier tolerance for panics on zero-area views was never
+/// exercised once the library's empty-view defects were repaired, and was removed.)
 fn model_write(op: WOp, g: Geo, model: &[i32], fresh: i32, src: &Buf2<i32>) -> (Option<bool>, Vec<i32>) {
     let mut m = model.to_vec();
-    let zero = g.w == 0 || g.h == 0;
     match op {
         WOp::Fill => { for i in g.cells() { m[i] = fresh; } (Some(false), m) }
         WOp::FillWith => {
             for y in 0..g.h { for x in 0..g.w { m[g.idx(x, y)] = fresh + (10 * y + x) as i32; } }
-            (if zero { None } else { Some(false) }, m)
+            (Some(false), m)
         }
         WOp::GetMut { x, y } => { if x < g.w && y < g.h { m[g.idx(x, y)] = fresh; } (Some(false), m) }
         WOp::IdxPt { x, y } | WOp::IdxArr { x, y } => {
@@ -233,17 +234,17 @@ fn model_write(op: WOp, g: Geo, model: &[i32], fresh: i32, src: &Buf2<i32>) -> (
         }
         WOp::RowsMut => {
             for y in 0..g.h { for x in 0..g.w { m[g.idx(x, y)] = fresh + (10 * y + x) as i32; } }
-            (if g.w == 0 { None } else { Some(false) }, m)
+            (Some(false), m)
         }
         WOp::IterMut => {
             for (k, i) in g.cells().into_iter().enumerate() { m[i] = fresh + k as i32; }
-            (if g.w == 0 { None } else { Some(false) }, m)
+            (Some(false), m)
         }
-        WOp::CopyFrom { sx, sy, dw, dh } => {
+        WOp::CopyFrom { sx, sy, dw, dh, .. } => {
             let (sw, sh) = ((g.w as i32 + dw) as u32, (g.h as i32 + dh) as u32);
             if dw != 0 || dh != 0 { return (Some(true), m); }
             for y in 0..sh { for x in 0..sw { m[g.idx(x, y)] = src[[sx + x, sy + y]]; } }
-            (if zero { None } else { Some(false) }, m)
+            (Some(false), m)
         }
     }
 }
@@ -274,11 +275,11 @@ fn real_write<D: DerefMut<Target = [i32]>>(v: &mut Inner<i32, D>, op: WOp, fresh
             for (k, c) in v.iter_mut().enumerate() { *c = fresh + k as i32; n += 1; }
             if n != (w * h) as usize { return Err(format!("iter_mut yielded {n} items, expected {}", w * h)); }
         }
-        WOp::CopyFrom { sx, sy, dw, dh } => {
+        WOp::CopyFrom { sx, sy, dw, dh, via_mut } => {
             let (w, h) = v.dims();
             let (sw, sh) = ((w as i32 + dw) as u32, (h as i32 + dh) as u32);
-            let s = src.slice((sx..sx + sw, sy..sy + sh));
-            v.copy_from(s);
+            if via_mut { let mut sc = src.clone(); let s = sc.slice_mut((sx..sx + sw, sy..sy + sh)); v.copy_from(s); }
+            else { let s = src.slice((sx..sx + sw, sy..sy + sh)); v.copy_from(s); }
         }
     }
     Ok(())
@@ -301,10 +302,12 @@ fn write_ops(g: Geo) -> Vec<WOp> {
     for (i, x) in rows { ops.push(WOp::RowIdx { i, x }); }
     // copy_from: same dims from two offsets of the source buffer, and two mismatching dims
     if w <= 4 && h <= 4 {
-        ops.push(WOp::CopyFrom { sx: 0, sy: 0, dw: 0, dh: 0 });
-        if w + 1 <= 5 && h + 1 <= 5 { ops.push(WOp::CopyFrom { sx: 1, sy: 1, dw: 0, dh: 0 }); }
-        ops.push(WOp::CopyFrom { sx: 0, sy: 0, dw: 1, dh: 0 });
-        if h > 0 { ops.push(WOp::CopyFrom { sx: 0, sy: 0, dw: 0, dh: -1 }); }
+        for via_mut in [false, true] {
+            ops.push(WOp::CopyFrom { sx: 0, sy: 0, dw: 0, dh: 0, via_mut });
+            if w + 1 <= 5 && h + 1 <= 5 { ops.push(WOp::CopyFrom { sx: 1, sy: 1, dw: 0, dh: 0, via_mut }); }
+        }
+        ops.push(WOp::CopyFrom { sx: 0, sy: 0, dw: 1, dh: 0, via_mut: false });
+        if h > 0 { ops.push(WOp::CopyFrom { sx: 0, sy: 0, dw: 0, dh: -1, via_mut: true }); }
     }
     ops
 }
@@ -564,13 +567,13 @@ fn check_ctors(w: u32, h: u32, rep: &mut Report) {
     rep.eval();
     if let Ok(b) = caught(|| Buf2::<i32>::new((w, h))) {
         if b.dims() != (w, h) || b.data().len() != n || b.data().iter().any(|v| *v != 0) { let (k, wh, c) = cv("ctor-new", format!("Buf2::new(({w},{h})): dims {:?}, data {:?}", b.dims(), b.data())); rep.violation(k, wh, c); }
-    } else { rep.h("zero-area-construction-panics(carve-out)"); }
+    } else { let (k, wh, c) = cv("ctor-new-panics", format!("Buf2::new(({w},{h})) panicked")); rep.violation(k, wh, c); }
     let mut calls = vec![];
     if let Ok(b) = caught(|| Buf2::new_with((w, h), |x, y| { calls.push((x, y)); (10 * y + x) as i32 })) {
         let exp: Vec<i32> = (0..h).flat_map(|y| (0..w).map(move |x| (10 * y + x) as i32)).collect();
         let exp_calls: Vec<(u32, u32)> = (0..h).flat_map(|y| (0..w).map(move |x| (x, y))).collect();
         if b.data() != exp || calls != exp_calls { let (k, wh, c) = cv("ctor-new_with", format!("new_with: data {:?} expected {exp:?}; calls {calls:?}", b.data())); rep.violation(k, wh, c); }
-    }
+    } else { let (k, wh, c) = cv("ctor-new_with-panics", format!("Buf2::new_with(({w},{h}), ..) panicked")); rep.violation(k, wh, c); }
     for extra in [-1i32, 0, 1, 5] {
         rep.eval();
         let len = (n as i32 + extra).max(0) as usize;
@@ -578,7 +581,7 @@ fn check_ctors(w: u32, h: u32, rep: &mut Report) {
         match (res, len >= n) {
             (Ok(b), true) => { if b.data() != (1..=n as i32).collect::<Vec<_>>() || b.dims() != (w, h) { let (k, wh, c) = cv("ctor-new_from", format!("new_from with {len} items: data {:?}", b.data())); rep.violation(k, wh, c); } }
             (Ok(b), false) => { let (k, wh, c) = cv("ctor-accepts-too-small", format!("new_from(({w},{h})) accepted an iterator of only {len} items: {:?}", b.data())); rep.violation(k, wh, c); }
-            (Err(_), true) => { if w > 0 { let (k, wh, c) = cv("ctor-new_from-panics", format!("new_from(({w},{h})) panicked with {len} >= {n} items")); rep.violation(k, wh, c); } else { rep.h("zero-area-construction-panics(carve-out)"); } }
+            (Err(_), true) => { let (k, wh, c) = cv("ctor-new_from-panics", format!("new_from(({w},{h})) panicked with {len} >= {n} items")); rep.violation(k, wh, c); }
             (Err(_), false) => { rep.h("short-data-rejected"); }
         }
     }
@@ -665,6 +668,39 @@ fn main() {
         let need = (h as u128 - 1) * stride as u128 + w as u128;
         let (a, b) = (caught(|| { Slice2::new((w, h), stride, &data[..]); }).is_ok(), caught(|| { MutSlice2::new((w, h), stride, &mut d2[..]); }).is_ok());
         if (a || b) && need > len as u128 { rep.violation(format!("ctor-accepts-too-small|Direct {w}x{h} stride={stride} len={len}"), format!("a view of {w}x{h} with stride {stride} needs {need} elements but was constructed over {len} (Slice2 accepted={a}, MutSlice2 accepted={b})"), obj! {"root" => format!("Direct {w}x{h} stride={stride} len={len}"), "contents" => "[]", "recipe" => Vec::<String>::new(), "clause" => "ctor-accepts-too-small", "detail" => ""}); } else { rep.h("huge-direct-rejected"); }
+    }
+    // valid views whose extent h * stride exceeds 2^32 although (h-1) * stride + w does not - over zero-sized elements, so
+    // that the 2^32-element backing store costs nothing: rows / rows_mut / iter / fill / row and point indexing agree with h, w
+    // (every cell index still fits in u32, the type of the library's dimensions: larger views are outside its domain)
+    for (w, h, stride) in [(1u32, 2u32, 2147483649u32), (2, 65535, 65538), (3, 3, 0x7FFF_FFFE), (1, 4, 0x4000_0001), (5, 2, 0xFFFF_FFF0)] {
+        rep.eval();
+        let need = (h as u64 - 1) * stride as u64 + w as u64;
+        let mut data: Vec<()> = vec![(); need as usize];
+        let tag = format!("Direct(zero-sized cells) {w}x{h} stride={stride}");
+        let cv = |clause: &str, what: String| (format!("{clause}|{tag}"), what, obj! {"root" => tag.clone(), "contents" => "[]", "recipe" => Vec::<String>::new(), "clause" => clause, "detail" => ""});
+        let res = caught(|| {
+            let v = Slice2::new((w, h), stride, &data[..]);
+            let rows: Vec<usize> = v.rows().map(|r| r.len()).collect();
+            (v.dims(), rows.len(), rows.iter().all(|l| *l == w as usize), v.iter().count(), v.get(pt2(w - 1, h - 1)).is_some(), v.get(pt2(w, h - 1)).is_none() && v.get(pt2(0, h)).is_none(), v[h as usize - 1].len())
+        });
+        match res {
+            Ok((dims, nrows, lens_ok, ncells, last_ok, oob_ok, lastrow)) => {
+                if dims != (w, h) || nrows != h as usize || !lens_ok || ncells != (w * h) as usize || !last_ok || !oob_ok || lastrow != w as usize { let (k, wh, c) = cv("rows-count", format!("{tag}: dims {dims:?}, rows() yields {nrows} rows (all of width {w}: {lens_ok}), iter() {ncells} cells, last cell reachable {last_ok}, out-of-bounds rejected {oob_ok}, last row len {lastrow}")); rep.violation(k, wh, c); } else { rep.nontrivial(); rep.h("huge-zero-sized-view-read"); }
+            }
+            Err(p) => { let (k, wh, c) = cv("read-panics", format!("{tag}: reading a valid view panicked: {p}")); rep.violation(k, wh, c); }
+        }
+        let res = caught(|| {
+            let mut v = MutSlice2::new((w, h), stride, &mut data[..]);
+            let n = v.rows_mut().map(|r| { assert_eq!(r.len(), w as usize); }).count();
+            let m = v.iter_mut().count();
+            v.fill(());
+            v.fill_with(|_, _| ());
+            (n, m)
+        });
+        match res {
+            Ok((n, m)) => { if n != h as usize || m != (w * h) as usize { let (k, wh, c) = cv("rows-count", format!("{tag}: rows_mut() yields {n} rows, iter_mut() {m} cells")); rep.violation(k, wh, c); } else { rep.h("huge-zero-sized-view-write"); } }
+            Err(p) => { let (k, wh, c) = cv("write-panics", format!("{tag}: writing through a valid view panicked: {p}")); rep.violation(k, wh, c); }
+        }
     }
     for w in 0..=maxd { for h in 0..=maxd { check_ctors(w, h, &mut rep); } }
     // BFS by levels; each level expanded in parallel
